@@ -560,7 +560,7 @@ def _regressions():
     yield _case("cache", tens, [{"tensor": "A", "rank": "M", "type": "payload"}],
                 [rd("A", "M", "payload", ["M"], [[0, 0, 0], [1, 1, 1], [2, 0, 0], [2, 1, 1], [3, 0, 0]])],
                 32, [32], kind="regression", bruteforce=[0, 1, 0, 1, 0])
-    # F1: shapes[] computed from the LAST binding's tensor/rank (buffet and cache)
+    # (fixed a543495) shapes[] used to be computed from the LAST binding's tensor/rank (buffet and cache)
     tens = [{"name": "Z", "ranks": ["M", "N"], "shape": [4, 2]}]
     tr = [wr("Z", "M", "payload", ["M"], [[0, 0, 0], [1, 3, 3]]), rd("Z", "N", "payload", ["M", "N"], [[0, 0, 0, 0, 0]])]
     yield _case("buffet", tens, [{"tensor": "Z", "rank": "M", "type": "payload", "evict_on": "root"},
@@ -633,8 +633,6 @@ def signature(case, verdict, failed):
         if "explained:stamp-tie" in t:
             return "cache:%s:stamp-tie" % ("AssertionError" if crash else "suboptimal")
     if op in ("buffet", "cache") and agree and fs == ["spec"] and not crash and "jitter" not in kinds:
-        if "explained:stale-shape" in t:
-            return op + ":stale-shape"
         if kinds == ["monotone"] and "overflow" in t and "MODEL-NOT-SPEC" not in t:
             return "cache:nonmonotone:overflow"
     return op + ":" + "/".join(fs + kinds) + ("" if agree else ":model-disagrees")
